@@ -2,21 +2,23 @@
 """Copies a confirmed seeded change from /tmp/mut_<id>.* into /verif/seeded/<id>/ with meta.json."""
 import json, os, shutil, subprocess, sys, glob
 id = sys.argv[1]
+pre = os.environ.get("SEED_PREFIX","mut")
+suffix = os.environ.get("SEED_SUFFIX","")
 caught_by = sys.argv[2] if len(sys.argv) > 2 else ""
 notes = sys.argv[3] if len(sys.argv) > 3 else ""
-d = f'/verif/seeded/{id}'
+d = f'/verif/seeded/{id}{suffix}'
 os.makedirs(d, exist_ok=True)
-shutil.copy(f'/tmp/mut_{id}.patch.diff', f'{d}/patch.diff')
-demo = subprocess.check_output(f"cd /tmp/mut_{id} && find . -name zz_demo_test.go | head -1", shell=True, text=True).strip()
-shutil.copy(f'/tmp/mut_{id}/{demo}', f'{d}/demo_test.go')
-desc = open(f'/tmp/mut_{id}.meta.txt').read() if os.path.exists(f'/tmp/mut_{id}.meta.txt') else ''
+shutil.copy(f'/tmp/{pre}_{id}.patch.diff', f'{d}/patch.diff')
+demo = subprocess.check_output(f"cd /tmp/{pre}_{id} && find . -name zz_demo_test.go | head -1", shell=True, text=True).strip()
+shutil.copy(f'/tmp/{pre}_{id}/{demo}', f'{d}/demo_test.go')
+desc = open(f'/tmp/{pre}_{id}.meta.txt').read() if os.path.exists(f'/tmp/{pre}_{id}.meta.txt') else ''
 meta = {
   "property": id,
   "origin": "written by an independent sub-agent that saw only the property text and its own scratch worktree of /repo",
   "demo_location_in_repo": demo.lstrip('./'),
   "needs_to_manifest": desc.strip(),
   "confirmed": "tools/confirm_seeded.sh %s: patch applies to /repo HEAD, go build + full existing suite pass with it, TestSeededDemo fails with it and passes without it (fresh scratch worktree, removed afterwards)" % id,
-  "checks_run": "tools/try_seeded.sh /verif/seeded/%s/patch.diff quick %s (applies to /repo, runs the check, restores /repo)" % (id, id),
+  "checks_run": "tools/try_seeded.sh /verif/seeded/%s%s/patch.diff quick %s (applies to /repo, runs the check, restores /repo)" % (id, suffix, id),
   "caught_by": caught_by,
   "notes": notes,
 }
